@@ -12,6 +12,7 @@
 //   {"k":"pat","name":bytes,"maxlen":n}            PathPatternGen vector: rtosc_match_path / rtosc_match over every address up to maxlen
 //   {"k":"tree","table":T,"addrs":[bytes..]}       PortTreeGen vector: Ports::dispatch with / without location buffer
 //   {"k":"app","ev":[{"op":"set"|"get",...}]}      AppGen script: app1 (real port-sugar callbacks, default reply/broadcast forwarding)
+//   {"k":"app2"}                                    a fixed script on a second macro-built application with long port names, option names and string values
 //   {"k":"link","maxmsg":..,"maxmessages":..,"ops":[{"o":..}]}   RtSafetyGen script on a real rtosc::ThreadLink
 //   {"k":"control"}                                 operations that allocate / free / lock on purpose (must be rejected by the judge)
 #include "app1.hpp"
@@ -102,13 +103,13 @@ static void do_msg_am(const AMsg &am) {
 // ------------------------------------------------------------------ patterns
 static void do_pat(const J &in) {
     static const char ALPHA[] = {'a', 'b', 'c', '0', '1', '2', '9', '/', '#', '{', '}'};
-    std::string name = in["name"].text(); int maxlen = (int)in["maxlen"].num(); static char a[16]; static char msgs[3][64]; int idx[8];
+    std::string prefix = in["prefix"].s; std::string name = prefix + in["name"].text(); int maxlen = (int)in["maxlen"].num(); static char abuf[96]; snprintf(abuf, 80, "%s", prefix.c_str()); char *a = abuf + strlen(abuf); static char msgs[3][160]; int idx[8];
     for (int len = 0; len <= maxlen && len < 8; ++len) {
         for (int i = 0; i < len; ++i) idx[i] = 0;
         for (;;) {
             for (int i = 0; i < len; ++i) a[i] = ALPHA[idx[i]]; a[len] = 0;
-            rt("match.path", [&] { const char *end = nullptr; return rtosc_match_path(name.c_str(), a, &end) ? "match" : "nomatch"; });
-            if (len > 0) { size_t k0 = rtosc_message(msgs[0], 64, a, ""), k1 = rtosc_message(msgs[1], 64, a, "i", 1), k2 = rtosc_message(msgs[2], 64, a, "fs", 1.0, "x");
+            rt("match.path", [&] { const char *end = nullptr; return rtosc_match_path(name.c_str(), abuf, &end) ? "match" : "nomatch"; });
+            if (len > 0) { size_t k0 = rtosc_message(msgs[0], 160, abuf, ""), k1 = rtosc_message(msgs[1], 160, abuf, "i", 1), k2 = rtosc_message(msgs[2], 160, abuf, "fs", 1.0, "x");
                 if (k0 && k1 && k2) for (int t = 0; t < 3; ++t) rt("match.msg", [&] { return rtosc_match(name.c_str(), msgs[t], nullptr) ? "match" : "nomatch"; }); }
             int p = len - 1; while (p >= 0 && ++idx[p] == (int)sizeof ALPHA) { idx[p] = 0; --p; }
             if (p < 0) break;
@@ -186,6 +187,51 @@ static void do_app(const J &in) {
     }
 }
 
+
+// ------------------------------------------------------------------ a second macro-built application: long names everywhere (port names, option names, string values
+// beyond the 15-character small-string buffer) - the realistic way a std::string temporary turns into a heap allocation.  No value model is needed for C03.
+namespace app2 {
+struct Inner { int inner_integer_parameter_long = 1; float inner_float_parameter_long = 0.5f; static const rtosc::Ports ports; };
+struct Big { int integer_parameter_with_a_long_name = 5; float float_parameter_with_a_rather_long_name = 0.5f; bool toggle_parameter_with_a_long_name = false; int option_parameter_with_long_names = 0;
+    char string_parameter_with_long_contents[64]; char integer_array_with_a_long_name[4]; Inner subtree_with_a_really_long_name; Inner enumerated_subtrees_with_long_names[3];
+    Big() { strcpy(string_parameter_with_long_contents, "initial"); memset(integer_array_with_a_long_name, 1, 4); }
+    static const rtosc::Ports ports; };
+#define rObject Inner
+inline const rtosc::Ports Inner::ports = {
+    rParamI(inner_integer_parameter_long, rLinear(0, 50), rDefault(1), "inner int"),
+    rParamF(inner_float_parameter_long, rLinear(-4, 4), rDefault(0.5), "inner float"),
+};
+#undef rObject
+#define rObject Big
+#undef rChangeCb
+#define rChangeCb
+inline const rtosc::Ports Big::ports = {
+    rParamI(integer_parameter_with_a_long_name, rLinear(-10, 1000), rDefault(5), "an integer parameter whose documentation string is also fairly long"),
+    rParamF(float_parameter_with_a_rather_long_name, rLinear(-2.5, 10.25), rDefault(0.5), "float"),
+    rToggle(toggle_parameter_with_a_long_name, rDefault(false), "toggle"),
+    rOption(option_parameter_with_long_names, rOptions(the_first_option_with_a_long_name, the_second_option_with_a_long_name, third), rDefault(third), "option"),
+    rString(string_parameter_with_long_contents, 64, rDefault("initial"), "string"),
+    rArrayI(integer_array_with_a_long_name, 4, rLinear(0, 100), rDefault([1 1 1 1]), "array"),
+    rRecur(subtree_with_a_really_long_name, "member sub-tree"),
+    rRecurs(enumerated_subtrees_with_long_names, 3, "enumerated sub-trees"),
+};
+#undef rObject
+}
+static void do_app2() {
+    app2::Big app; static char loc[1024]; static char m[1024];
+    const char *I[] = {"/integer_parameter_with_a_long_name", "/integer_array_with_a_long_name2", "/subtree_with_a_really_long_name/inner_integer_parameter_long", "/enumerated_subtrees_with_long_names2/inner_integer_parameter_long",
+                       "/option_parameter_with_long_names", "/an_address_that_is_long_but_names_no_port_at_all", "/subtree_with_a_really_long_name/no_such_port_below_the_subtree"};
+    const char *F[] = {"/float_parameter_with_a_rather_long_name", "/subtree_with_a_really_long_name/inner_float_parameter_long", "/enumerated_subtrees_with_long_names0/inner_float_parameter_long"};
+    const char *S[] = {"/string_parameter_with_long_contents", "/option_parameter_with_long_names"};
+    const char *SV[] = {"", "short", "exactly15chars_", "sixteen_chars_16", "the_second_option_with_a_long_name", "the_first_option_with_a_long_name", "a string value that is much longer than any small string buffer, sixty-one.", "no_such_option_but_a_long_name"};
+    auto go = [&](const char *op, size_t n) { if (!n) return; Quiet d; d.obj = &app; memset(loc, 0, sizeof loc); d.loc = loc; d.loc_size = sizeof loc;
+        rt(op, [&] { app2::Big::ports.dispatch(m, d, true); return d.matches > 0 ? "match" : "nomatch"; }); };
+    for (const char *a : I) { for (int v : {-50, 0, 1, 2, 7, 5000}) { go("sugar.set", rtosc_message(m, sizeof m, a, "i", v)); go("sugar.get", rtosc_message(m, sizeof m, a, "")); } go("sugar.set", rtosc_message(m, sizeof m, a, "f", 1.5)); }
+    for (const char *a : F) { for (double v : {-100.0, 0.25, 3.5, 100.0}) { go("sugar.set", rtosc_message(m, sizeof m, a, "f", v)); go("sugar.get", rtosc_message(m, sizeof m, a, "")); } go("sugar.set", rtosc_message(m, sizeof m, a, "i", 1)); }
+    for (const char *a : S) for (const char *v : SV) { go("sugar.set", rtosc_message(m, sizeof m, a, "s", v)); go("sugar.get", rtosc_message(m, sizeof m, a, "")); go("sugar.set", rtosc_message(m, sizeof m, a, "S", v)); }
+    for (const char *t : {"T", "F"}) { go("sugar.set", rtosc_message(m, sizeof m, "/toggle_parameter_with_a_long_name", t)); go("sugar.get", rtosc_message(m, sizeof m, "/toggle_parameter_with_a_long_name", "")); }
+}
+
 // ------------------------------------------------------------------ ThreadLink
 struct LinkKit { size_t maxmsg, maxmessages; std::string big, over; char small_msg[64], large_msg[256]; rtosc_arg_t ai[1], ab[1], ao[1];
     LinkKit(const J &in) : maxmsg((size_t)in["maxmsg"].num()), maxmessages((size_t)in["maxmessages"].num()), big(maxmsg - 9, 'x'), over(maxmsg + 19, 'y') {
@@ -239,7 +285,7 @@ int main(int argc, char **argv) {
         nagg = 0; merge = true; long h0 = heap_ops, l0 = lock_ops, ah0 = all_heap, al0 = all_lock; int sig = 0;
         armed = 1; alarm(60);
         if ((sig = sigsetjmp(jmp, 1)) == 0) {
-            if (k == "msg") do_msg(in); else if (k == "msgrand") do_msgrand(in); else if (k == "pat") do_pat(in); else if (k == "tree") do_tree(in); else if (k == "app") do_app(in);
+            if (k == "msg") do_msg(in); else if (k == "msgrand") do_msgrand(in); else if (k == "pat") do_pat(in); else if (k == "tree") do_tree(in); else if (k == "app") do_app(in); else if (k == "app2") do_app2();
             else if (k == "link") do_link(in); else if (k == "control") do_control();
         }
         alarm(0); armed = 0; rt_on = 0;
